@@ -160,10 +160,14 @@ let run_case (v : variant) (line : string) (impl : string option) : string =
           end;
           if !outs = [] then "empty" else String.concat " ; " (List.rev !outs)))
 
+let all_variants = ["repaired"; "def:R"; "def:A"; "def:D"; "def:RA"; "def:RD"; "def:AD"; "defective"]
 let () =
   let lines = read_lines Sys.argv.(1) in
   let impl = if Array.length Sys.argv > 2 && Sys.argv.(2) <> "-" then Some (Array.of_list (read_lines Sys.argv.(2))) else None in
-  let v = variant_of (if Array.length Sys.argv > 3 then Sys.argv.(3) else "repaired") in
+  let vname = if Array.length Sys.argv > 3 then Sys.argv.(3) else "repaired" in
   List.iteri (fun i line ->
     let il = match impl with Some a when i < Array.length a -> Some a.(i) | _ -> None in
-    print_endline (try run_case v line il with e -> "MODELERROR " ^ Printexc.to_string e)) lines
+    let one v = try run_case (variant_of v) line il with e -> "MODELERROR " ^ Printexc.to_string e in
+    (* "all": every variant's answer on one line (used by props/C15.py to describe a mismatch) *)
+    if vname = "all" then print_endline (String.concat " ### " (List.map one all_variants))
+    else print_endline (one vname)) lines
